@@ -3,8 +3,8 @@ F = "src/query/selector.rs"
 NODE_CL = "(o: Data<'a, T>)"
 
 UNITS = [
-    Unit(name="Selector::process", file=F, impl="impl Query for Selector", fn="process", order=20,
-         trait_method=True, serves=["C01", "C02", "C11", "C08"],
+    Unit(name="Selector::process", calls=['State::flat_map'], file=F, impl="impl Query for Selector", fn="process", order=20,
+         trait_method=True, serves=["C01", "C02"],
          impl_extra="""
     open spec fn process_pre<'a, T: Queryable>(&self, state: State<'a, T>) -> bool { wf_selector(*self) }
     open spec fn process_rel<'a, T: Queryable>(&self, state: State<'a, T>, r: State<'a, T>) -> bool {
